@@ -1128,7 +1128,11 @@ class C13(Prop):
                     "0..2 links, 4 methods, 1..3 iterations; minimiser = scripted adversary (8 kinds) or recorder around "
                     "scipy (full / capped); compared inside Coq: point array and clamp parameters at every scipy call and "
                     "at the end, backported vertices, per-iteration quality, escape of an exception; non-trivial = at "
-                    "least one optimize_clamp call with a trial; distinct by spec")
+                    "least one optimize_clamp call with a trial; distinct by spec; (L) rows of 2..3 boxes, one or two vertices of the "
+                    "shared face displaced and clamped the way the library's examples do (LineClamp/RadialClamp built from the "
+                    "vertex' own live position array), scipy minimisers, optimize() called 1..3 times on the same optimizer: "
+                    "direct oracle after every call (no clamp -> not moved; on the line/circle described at clamping time, inside "
+                    "the bounds counted from there; fresh-grid quality not worse)")
         n = ctx.n(124, 1500)
         specs = load_corpus()
         res.count("corpus", len(specs))
@@ -1136,7 +1140,27 @@ class C13(Prop):
             r = i / float(n)
             mini = "scripted" if r < 0.55 else ("real-capped" if r < 0.85 else "real")
             specs.append(gen_case(ctx.rng, minimizer=mini))
-        return self.run_specs(ctx, specs, res)
+        res = self.run_specs(ctx, specs, res)
+        if res.error:
+            return res
+        return self.live_stream(ctx, res, ctx.n(40, 400))
+
+    def live_stream(self, ctx, res, n):
+        """(L) clamps made from live vertex arrays, real minimisers, optimize() called 1..3 times (direct oracle only)"""
+        import multiprocessing as mp
+        from props import C13_live
+        cases = [C13_live.gen_live_case(ctx.rng) for _ in range(n)]
+        with mp.get_context("fork").Pool(min(16, os.cpu_count() or 4)) as pool:
+            outs = pool.map(C13_live.check_live, cases, chunksize=2)
+        seen = set()
+        for case, f in zip(cases, outs):
+            res.evaluations += 1
+            res.count("live:%s:calls=%d" % (case["kind"], case["calls"]))
+            res.distinct.add("live:" + C13_live.case_key(case))
+            if f and f["sig"] not in seen:
+                seen.add(f["sig"])
+                res.oracle_failures.append(dict(kind="live", case=f["case"], why=f["why"], sub=f["sig"][4:]))
+        return res
 
     def run_specs(self, ctx, specs, res, coq=True):
         import multiprocessing as mp
@@ -1221,6 +1245,8 @@ class C13(Prop):
             specs.append(gen_case(ctx.rng, minimizer="scripted"))
         res = CorrResult()
         self.run_specs(ctx, specs, res, coq=False)
+        if not res.oracle_failures and not corr.oracle_failures:
+            self.live_stream(ctx, res, ctx.n(120, 600))
         seen = set()
         for f in res.oracle_failures:
             if f["sub"] in seen:
@@ -1233,6 +1259,15 @@ class C13(Prop):
         return "C13:%s" % rp.get("sub", rp.get("kind", "?"))
 
     def replay(self, ctx, obj):
+        if obj.get("kind") == "live":
+            from props import C13_live
+            ob = C13_live.run_live_case(obj["case"])
+            print("case:", json.dumps(obj["case"]))
+            for k, st in enumerate(ob["steps"]):
+                print("implementation: call %d: quality %.9g -> %.9g, exception %s, clamped vertices at %s" % (
+                    k + 1, st["q0"], st["q1"], st["exception"], [st["positions"][d["index"]] for d in ob["described"]]))
+            print("oracle:", C13_live.oracle_live(obj["case"], ob) or "ok")
+            return 0
         spec = obj["spec"]
         print("case:", describe(spec))
         rec, b = run_case(spec)
